@@ -904,13 +904,24 @@ def call_model(eng, f, args, kwargs, node, frame):
         # spec functions are callable from code position too when contracts inline ghost calls
         if f.name in eng.vf.specs:
             return eng.vf.specs[f.name].sym(eng, *args, **kwargs)
-        tcon = C.lookup("<stdlib>", f.name)
+        tcon = stdlib_contract(eng, f.name)
         if tcon is not None:
             return eng.call_contract(tcon, args, kwargs, node, frame)
         if eng.spec:
             raise OutOfSubset(node, f"unknown function {f.name} in spec")
         return eng.opaque_call(f.name, args + list(kwargs.values()), node)
     return fn(eng, args, kwargs, node, frame)
+
+
+def stdlib_contract(eng, name):
+    """Trusted contract of a stdlib primitive; the function under verification may select a
+    discipline-specific variant through options["primitives"] = {name: variant}."""
+    cur = getattr(eng.vf, "current", None)
+    if cur is not None:
+        var = cur.options.get("primitives", {}).get(name)
+        if var is not None:
+            return C.lookup("<stdlib>", var)
+    return C.lookup("<stdlib>", name)
 
 
 def call_abstract(eng, f, args, kwargs, node, frame):
@@ -1198,8 +1209,20 @@ def m_callable(eng, args, kwargs, node, frame):
 def m_getattr(eng, args, kwargs, node, frame):
     if isinstance(args[1], VStr) and args[1].s is not None:
         base = args[0]
-        if isinstance(base, VModule) and base.name == "os" and args[1].s in ("replace", "fsync", "rename"):
-            return VFunc("model", name=f"os.{args[1].s}")
+        if isinstance(base, VModule):
+            from .engine import STDLIB_CONSTS
+            dotted = f"{base.name}.{args[1].s}"
+            if dotted in STDLIB_CONSTS:
+                return VInt(STDLIB_CONSTS[dotted])
+            import importlib
+            try:
+                real = importlib.import_module(base.name)
+                if hasattr(real, args[1].s):
+                    return VFunc("model", name=dotted)
+                if len(args) > 2:
+                    return args[2]        # attribute absent on this platform (e.g. os.O_BINARY)
+            except Exception:
+                pass
         b = eng.deref(base)
         if isinstance(b, VObj):
             if args[1].s in b.fields:
@@ -1341,7 +1364,12 @@ def construct(eng, cls: VClass, args, kwargs, node, frame):
     if con is None:
         con = C.find_method(cls.name, "__init__")
     if con is not None:
-        obj = eng.alloc(VObj(cls.name))
+        o = VObj(cls.name)
+        cs = C.CLASS_SPECS.get(cls.name)
+        if cs:
+            for f, ex in cs.init.items():
+                o.fields[f] = eng.eval_spec(ex, frame)
+        obj = eng.alloc(o)
         eng.call_contract(con, [obj] + args, kwargs, node, frame)
         return obj
     dotted = f"{cls.module}.{cls.name}" if cls.module and not str(cls.module).endswith(".py") else cls.name
@@ -1367,7 +1395,7 @@ def opaque_method(eng, recv, r, name, args, kwargs, node):
     for a in args:
         eng.havoc_reachable(a)
     if eng.branch(fresh_bool("opaque_raises"), free=True):
-        raise PyExc(None, site=getattr(node, "lineno", None), any_of="Exception")
+        raise PyExc(None, site=getattr(node, "lineno", None), any_of=eng.fault_bound())
     return VOpaque(tag=f"ret:{what}")
 
 
